@@ -33,7 +33,7 @@ RULE = (
 )
 ASSUMPTIONS = ["helper parameters annotated Any (eq/ne/gt/ge/lt/le value, call_method args) are exercised as constants only"]
 FLOORS = {"bracketings_compared": (1500, 30000), "identity_checks": (400, 8000), "split_checks": (1500, 30000), "rshift_checks": (400, 8000),
-          "param_key_checks": (400, 8000), "reuse_checks": (300, 6000), "helper_cases": (240, 240), "helper_cases_with_option_argument": (140, 140), "helpers_covered": (60, 60), "helper_reapplications": (230, 230), "pipeline_history_steps": (3000, 60000), "stateful_step_evaluations": (36, 36)}
+          "param_key_checks": (400, 8000), "reuse_checks": (300, 6000), "helper_cases": (247, 247), "helper_cases_with_option_argument": (144, 144), "helpers_covered": (60, 60), "helper_reapplications": (238, 238), "pipeline_history_steps": (3000, 60000), "stateful_step_evaluations": (36, 36)}
 SHARDS_QUICK = 2
 
 
@@ -341,7 +341,9 @@ def helper_table():
         "divide_into": [(lambda V: F.divide_into(V(NCb)), NCa, ("div", "a", "x")), (lambda V: F.divide_into(V(4)), 2, 2.0)],
         "negate": [(lambda V: F.negate, NCa, ("neg", "x")), (lambda V: F.negate, 3, -3)],
         "modulo": [(lambda V: F.modulo(V(NCb)), NCa, ("mod", "x", "a")), (lambda V: F.modulo(V(3)), 10, 1)],
-        "merge": [(lambda V: F.merge(V({"b": 9, "c": 3})), {"a": 1, "b": 2}, {"a": 1, "b": 9, "c": 3})],
+        "merge": [(lambda V: F.merge(V({"b": 9, "c": 3})), {"a": 1, "b": 2}, {"a": 1, "b": 9, "c": 3}),
+                  # {**x, **m} is shallow: a section on both sides is replaced, not merged
+                  (lambda V: F.merge(V({"cfg": {"b": 2}, "l": [9]})), {"cfg": {"a": 1, "keep": True}, "n": 1, "l": [1, 2]}, {"cfg": {"b": 2}, "n": 1, "l": [9]})],
         "length": [(lambda V: F.length, [1, 2, 3], 3)],
         "instance_of": [(lambda V: F.instance_of(V(int), V(str)), "s", True), (lambda V: F.instance_of(V(int)), "s", False)],
         "all": [(lambda V: F.all(V(is_pos), V(lambda v: v < 5)), 3, True), (lambda V: F.all(V(is_pos), V(lambda v: v < 5)), 7, False)],
